@@ -33,8 +33,39 @@ type verifInputCfg struct {
 	Bad   bool
 }
 
-func (c *verifInputCfg) NewInput(logger.Logger, *base.LogAllocator, base.LogSchema, base.MultiSinkBufferReceiver, promreg.MetricCreator, channels.Awaitable) (base.LogInput, error) {
-	return nil, errors.New("not used")
+func (c *verifInputCfg) NewInput(_ logger.Logger, _ *base.LogAllocator, _ base.LogSchema, receiver base.MultiSinkBufferReceiver, _ promreg.MetricCreator, stop channels.Awaitable) (base.LogInput, error) {
+	in := &verifInput{addr: c.Addr, receiver: receiver, stop: stop, stopped: channels.NewSignalAwaitable()}
+	verifInputs = append(verifInputs, in)
+	return in, nil
+}
+
+// verifInput is a scripted input: one connection that holds a record it has
+// read; on the stop request it takes a symbolic number of scheduling steps,
+// hands the record over (the final flush) and only then counts as stopped.
+type verifInput struct {
+	addr     string
+	receiver base.MultiSinkBufferReceiver
+	stop     channels.Awaitable
+	stopped  *channels.SignalAwaitable
+	flushed  bool
+}
+
+var verifInputs []*verifInput
+
+func (in *verifInput) Address() string             { return in.addr }
+func (in *verifInput) Stopped() channels.Awaitable { return in.stopped }
+func (in *verifInput) Start() {
+	go func() {
+		sink := in.receiver.NewSink(in.addr, 1)
+		<-in.stop.Channel()
+		for i := sym.Choice("stepsToFlush", 3); i > 0; i-- {
+			sym.Yield()
+		}
+		sink.Accept([]*base.LogRecord{verifRecord})
+		sink.Close()
+		in.flushed = true
+		in.stopped.Signal()
+	}()
 }
 
 func (c *verifInputCfg) NewParser(logger.Logger, *base.LogAllocator, base.LogSchema, *base.LogInputCounterSet) (base.LogParser, error) {
@@ -306,3 +337,46 @@ func VerifC17_ConfigGate() {
 	sink.Close()
 	sym.Assert(mon.delivered == 2, "records accepted before and after the reload attempt reach a live pipeline set")
 }
+
+// VerifC01_InputsStopBeforePipelines: run.Run's stop sequence - the shutdown
+// function returned by Loader.LaunchInputs, then Orchestrator.Shutdown - with
+// two scripted inputs that each hold a record until the stop request and need
+// a symbolic number of scheduling steps for their final flush: the shutdown
+// function returns only after every input has handed its records over, so no
+// record reaches a pipeline set that is already shut down.
+//
+//verif:native off
+//verif:preempt 0
+//verif:delays 2
+//verif:stub github.com/relex/gotils/promexporter/promreg.NewMetricFactory verifStubNewMetricFactory
+//verif:reach done
+func VerifC01_InputsStopBeforePipelines() {
+	verifInputs = nil
+	mon := &verifReloadMon{}
+	conf := verifBaseConfig(mon)
+	conf.Inputs = append(conf.Inputs, bconfig.LogInputConfigHolder{Value: &verifInputCfg{Header: bconfig.Header{Type: "in"}, Addr: "a:2", Field: "level"}})
+	loader := &Loader{Config: *conf, logger: logger.Root()}
+	orc := mon.newGen()
+	addrs, shutdownInputs := loader.LaunchInputs(orc)
+	sym.Assert(len(addrs) == 2 && len(verifInputs) == 2, "both inputs are launched")
+	sym.Yield()
+	shutdownInputs()
+	for _, in := range verifInputs {
+		sym.Assert(in.flushed, "the input shutdown returns only after every input has done its final flush")
+	}
+	orc.Shutdown() // asserts that every sink is closed; a later Accept asserts "no record is handed to a pipeline set that has been shut down"
+	for i := 0; i < 3; i++ {
+		sym.Yield()
+	}
+	sym.Assert(mon.delivered == 2, "the records held by the inputs at the stop request reach the pipelines")
+	sym.Reach("done")
+}
+
+// VerifC18_InputsStopBeforePipelines: the same sequence read for C18 (the stop sequence terminates: no deadlock).
+//
+//verif:native off
+//verif:preempt 0
+//verif:delays 2
+//verif:stub github.com/relex/gotils/promexporter/promreg.NewMetricFactory verifStubNewMetricFactory
+//verif:reach done
+func VerifC18_InputsStopBeforePipelines() { VerifC01_InputsStopBeforePipelines() }
